@@ -480,12 +480,17 @@ impl BuildJob<'_> {
             None,
         );
         let state = ptx.commit().map_err(RedoError::opaque_error)?;
+        let fid = self.lock.file_id();
         let job = server.start(self.t.into_string(), || {
             env::set_var(ENV_DEPTH, {
                 let mut depth = state.env().depth().to_string();
                 depth.push_str("  ");
                 depth
             });
+            // We keep holding the target's lock while redo-unlocked builds its
+            // dependencies: one that leads back to the target is a cyclic
+            // dependency, not a lock to wait for.
+            cycles::add(fid.to_string());
             if unsafe { signal::signal(Signal::SIGPIPE, SigHandler::SigDfl) }.is_err() {
                 return EXIT_FAILURE;
             }
